@@ -143,7 +143,7 @@ func checkC10(c *Ctx, r *Report) {
 		}, "v.controllers",
 		func(fi *FuncInfo) func(ast.Node) bool { return w.appendTo(fi, w.resultSlice(fi)) }, "append(controllerDiags)",
 		func(fi *FuncInfo) []skipSpec {
-			return []skipSpec{{Cond: w.condCalls(fi, "(core/validators/diagnostics.EntityDiagnostic).Empty"), Pol: false, Desc: "controller diagnostic is empty"}}
+			return []skipSpec{{Cond: w.condCalls(fi, "(core/validators/diagnostics.EntityDiagnostic).Empty"), Pol: true, Desc: "controller diagnostic is empty"}}
 		}, true, "every non-empty controller diagnostic is kept")
 	ruleMustCallOK(c, r, "C10.b", "(*core/validators.ApiValidator).Validate", av, -1, "ApiValidator.Validate succeeds only after validateControllers")
 	ruleMustCallOK(c, r, "C10.b", "(*core/pipeline.GleecePipeline).Validate", "(*core/validators.ApiValidator).Validate", -1, "pipeline.Validate is ApiValidator.Validate's verdict")
@@ -164,7 +164,7 @@ func checkC10(c *Ctx, r *Report) {
 			return w.callPred(fi, "(*core/validators/diagnostics.EntityDiagnostic).AddChild")
 		}, "AddChild(receiver diagnostic)",
 		func(fi *FuncInfo) []skipSpec {
-			return []skipSpec{{Cond: w.condCalls(fi, "(core/validators/diagnostics.EntityDiagnostic).Empty"), Pol: false, Desc: "receiver diagnostic is empty"}}
+			return []skipSpec{{Cond: w.condCalls(fi, "(core/validators/diagnostics.EntityDiagnostic).Empty"), Pol: true, Desc: "receiver diagnostic is empty"}}
 		}, true, "every non-empty receiver diagnostic becomes a child of the controller diagnostic")
 	ruleMustCallOK(c, r, "C10.b", "(*core/validators.ControllerValidator).validateReceiver", "(core/validators.ReceiverValidator).Validate", -1, "validateReceiver is ReceiverValidator.Validate's verdict")
 
@@ -213,10 +213,7 @@ func checkC10(c *Ctx, r *Report) {
 		func(fi *FuncInfo) []skipSpec {
 			return []skipSpec{
 				{Cond: w.condCalls(fi, "(core/metadata.TypeUsageMeta).IsContext"), Pol: true, Desc: "context parameter"},
-				{Cond: func(e ast.Expr) bool {
-					be, ok := e.(*ast.BinaryExpr)
-					return ok && be.Op == token.EQL && exprString(be.X) == "passedIn" && exprString(be.Y) == "nil"
-				}, Pol: true, Desc: "no passed-in annotation (reported by the link validator)"},
+				{Cond: w.nilTestOf(fi, "*definitions.ParamPassedIn"), Pol: true, Desc: "no passed-in annotation (reported by the link validator)"},
 			}
 		}, true, "every non-context parameter with a location is checked against the others (one body, no body+form)")
 	for _, sub := range []string{"validateBodyParam", "validateNonBodyParam", "validateParamsCombinations"} {
@@ -691,10 +688,7 @@ func checkC10Linking(c *Ctx, r *Report) {
 			}
 		}, "membership test against v.urlParams",
 		func(fi *FuncInfo) []skipSpec {
-			return []skipSpec{{Cond: func(e ast.Expr) bool {
-				be, ok := e.(*ast.BinaryExpr)
-				return ok && be.Op == token.NEQ && exprString(be.X) == "aliasDiag" && exprString(be.Y) == "nil"
-			}, Pol: true, Desc: "the alias property could not be read (diagnostic emitted)"}}
+			return []skipSpec{{Cond: w.nilTestOf(fi, "*core/validators/diagnostics.ResolvedDiagnostic"), Pol: false, Desc: "the alias property could not be read (diagnostic emitted)"}}
 		}, false,
 		"every @Path annotation (with or without a name alias) is checked to name a {parameter} of the route")
 
@@ -733,11 +727,8 @@ func checkC10Linking(c *Ctx, r *Report) {
 		func(fi *FuncInfo) func(ast.Node) bool { return w.appendTo(fi, w.resultSlice(fi)) }, "append(diags, unreferenced)",
 		func(fi *FuncInfo) []skipSpec {
 			return []skipSpec{
-				{Cond: func(e ast.Expr) bool { return strings.Contains(exprString(e), "wasSeen") }, Pol: false, Desc: "parameter was referenced"},
-				{Cond: func(e ast.Expr) bool {
-					be, ok := e.(*ast.BinaryExpr)
-					return ok && be.Op == token.EQL && exprString(be.X) == "matchingParam" && exprString(be.Y) == "nil"
-				}, Pol: true, Desc: "internal inconsistency (cannot happen: names come from the same list)"},
+				{Cond: w.commaOkOf(fi, "lookup", "map[string]core/annotations.Attribute"), Pol: true, Desc: "parameter was referenced"},
+				{Cond: w.nilTestOf(fi, "*core/metadata.FuncParam"), Pol: true, Desc: "internal inconsistency (cannot happen: names come from the same list)"},
 				{Cond: w.condCalls(fi, "(core/metadata.TypeUsageMeta).IsContext"), Pol: true, Desc: "context parameter"},
 			}
 		}, false,
